@@ -58,7 +58,8 @@ def getHandler(
     statresult = None
     try:
         statresult = vfs.stat(selector)
-    except OSError:
+    except (OSError, ValueError):
+        # ValueError: embedded NUL in the selector
         pass
     for handler in handlerlist:
         htry = handler(selector, searchrequest, protocol, config, statresult, vfs)
